@@ -69,8 +69,9 @@ class C13(EgSpec):
             out.append(('violation', r.split(' at operation')[0][:60], r + '; asserted: {%s}' % '; '.join(describe_history(pc)), {}))
             return out
         if stream['name'] == 'invariant':
-            if model_obs is not None and model_obs.strip() not in ('(inv (covered true) (invb true) (handles-cover true) (self-symmetries true))', '(inv history-error)'):
-                out.append(('differs', 'invariant-premise', 'on this history the executable premise of the proved equivalence theorem, or the executable invariant, is false in the model: %s' % model_obs.strip(), {}))
+            bad = egc_verdict(model_obs, ['covered', 'invb', 'handles-cover', 'self-symmetries', 'stored-live', 'handles-rep'])   # terms-wf is a premise on the INPUT (no name bound twice in one node), reported but not required
+            if bad:
+                out.append(('differs', 'invariant-premise', 'on this history the executable premise of the proved equivalence theorem, or the executable invariant, is false in the model: %s (%s)' % (bad, model_obs.strip()), {}))
             return out
         if model_obs is not None and core.sx_show(field(pi, 'steps')) != model_obs.strip():
             out.append(('differs', 'model-steps', 'per-operation observations differ from the e-graph model; equalities, slots and progress are monotone on the implementation', {'model': model_obs[:400]}))
